@@ -51,7 +51,10 @@ def main():
                 raise SystemExit(3)
             os.makedirs(os.path.join(wt, '_seed'), exist_ok=True)
             if not refactor:
-                shutil.copy(os.path.join(dst, 'demo.py'), os.path.join(wt, '_seed', 'demo.py'))
+                # the author's scratch path may be hard-coded in the demo: point it at this worktree
+                txt = open(os.path.join(dst, 'demo.py')).read()
+                txt = re.sub(r'/tmp/seed\d*/[A-Za-z0-9_-]+', wt, txt)
+                open(os.path.join(wt, '_seed', 'demo.py'), 'w').write(txt)
             rc, out = sh('%s -m pytest -q -p no:cacheprovider -n 8 test/' % PY, cwd=wt)
             tail = out.strip().split('\n')[-1]
             failed = re.findall(r'FAILED (\S+)', out)
